@@ -42,6 +42,8 @@ type m3 struct {
 	curRet    []mtype
 	closures  map[types.Object]*ast.FuncLit
 	classBusy map[types.Object]bool
+	heapObj   types.Object // (heap variant) the synthetic variable standing for the table
+	origins   map[types.Object]*origin4 // (fourth mode, JSON) where an alias came from
 }
 
 type loop3 struct {
@@ -186,7 +188,7 @@ func (c *m3) computeDirect() {
 	})
 	for o := range good {
 		if defs[o] == 1 {
-			if _, isPtr := o.Type().Underlying().(*types.Pointer); isPtr && abstractName3(o.Type()) == "" && !(curMode4 && isBigInt4(o.Type())) {
+			if _, isPtr := o.Type().Underlying().(*types.Pointer); isPtr && abstractName3(o.Type()) == "" && !(curMode4 && isBigInt4(o.Type())) && !isHeapPtr4(o.Type()) {
 				c.direct[o] = true
 			}
 		}
@@ -214,6 +216,10 @@ func (c *m3) isFreshPtr(e ast.Expr) bool {
 
 // varType: the value type of the Coq variable standing for o
 func (c *m3) varType(o types.Object, at ast.Node) mtype {
+	if o == c.heapObj && o != nil {
+		e := c.heapElemType(at)
+		return mtype{k: mList, elem: &e}
+	}
 	if c.direct[o] {
 		return c.mt(o.Type().Underlying().(*types.Pointer).Elem(), at)
 	}
@@ -227,6 +233,11 @@ func (c *m3) const3(e ast.Expr) (string, bool) {
 	tv, ok := c.p.info.Types[e]
 	if !ok || tv.Value == nil {
 		return "", false
+	}
+	if curMode4 {
+		if s, ok := c.constFloat4(e); ok {
+			return s, true
+		}
 	}
 	switch tv.Value.Kind() {
 	case constant.Bool:
@@ -493,6 +504,9 @@ func (c *m3) derefVal(p ast.Expr) string {
 	if t.k == mAbs {
 		return c.ex(p)
 	}
+	if t.k == mHPtr {
+		return c.bind("Go4.hget " + c.vn(c.heapVar()) + " " + c.ex(p))
+	}
 	if t.k != mOpt {
 		c.fail(p, "dereference of `%s`, which is not a pointer", c.srcText(p.Pos(), p.End()))
 	}
@@ -502,6 +516,9 @@ func (c *m3) derefVal(p ast.Expr) string {
 // structBase: the record denoted by x in x.f (x a struct value or a pointer to one)
 func (c *m3) structBase(x ast.Expr) (string, mtype) {
 	t := c.tyOf(x)
+	if t.k == mHPtr {
+		return c.bind("Go4.hget " + c.vn(c.heapVar()) + " " + c.ex(x)), *t.elem
+	}
 	if t.k == mOpt {
 		return c.derefVal(x), *t.elem
 	}
@@ -566,9 +583,14 @@ func (c *m3) pkgVar(use ast.Expr, v *types.Var) string {
 	return name
 }
 
-func (c *m3) compLit(e *ast.CompositeLit) string {
-	gt := c.typeOf(e)
-	t := c.tyOf(e)
+func (c *m3) compLit(e *ast.CompositeLit) string { return c.compLitT(e, c.typeOf(e)) }
+
+func (c *m3) compLitT(e *ast.CompositeLit, gt types.Type) string {
+	t := c.mt(gt, e)
+	if p, isPtr := gt.Underlying().(*types.Pointer); isPtr && t.k == mOpt && e.Type == nil {
+		// an element {..} of a []*T literal: &T{..}
+		return "(Some " + c.compLitT(e, p.Elem()) + ")"
+	}
 	switch t.k {
 	case mList:
 		var el []string
@@ -776,6 +798,11 @@ func (c *m3) eqbOf(t mtype, at ast.Node) string {
 }
 
 func (c *m3) bin3(at ast.Node, op token.Token, xe, ye ast.Expr, rt types.Type) string {
+	if curMode4 && op != token.LAND && op != token.LOR && !isNil(xe) && !isNil(ye) {
+		if s, ok := c.floatBin4(at, op, xe, ye, rt); ok {
+			return s
+		}
+	}
 	switch op {
 	case token.LAND, token.LOR:
 		return c.shortCircuit(op, xe, ye)
@@ -803,7 +830,7 @@ func (c *m3) bin3(at ast.Node, op token.Token, xe, ye ast.Expr, rt types.Type) s
 					return neg("false")
 				}
 				return neg(fmt.Sprintf("(Go3.isnil %s)", c.ex(z)))
-			case mMap:
+			case mMap, mHPtr:
 				return neg(fmt.Sprintf("(Go3.isnil %s)", c.ex(z)))
 			case mAbs:
 				c.needVar(t.abs+"_isnil", c.coqT(t)+" -> bool", at)
@@ -999,6 +1026,9 @@ func (c *m3) un3(e *ast.UnaryExpr) string {
 				return c.ex(e.X)
 			}
 		}
+		if t.k == mHPtr {
+			return c.heapAlloc(c.ex(e.X))
+		}
 		if t.k != mOpt {
 			c.fail(e, "unsupported address-of `%s`", c.srcText(e.Pos(), e.End()))
 		}
@@ -1006,6 +1036,9 @@ func (c *m3) un3(e *ast.UnaryExpr) string {
 	case token.XOR, token.SUB:
 		k := c.tyOf(e)
 		x := c.ex(e.X)
+		if k.k == mFloat && e.Op == token.SUB {
+			return fmt.Sprintf("(Go4.f64_neg %s)", x)
+		}
 		if k.k == mZ {
 			if e.Op == token.SUB {
 				if k.sized {
@@ -1218,6 +1251,11 @@ func repoDir(path string) (string, bool) {
 }
 
 func (c *m3) convert(e ast.Node, x string, from, to mtype) string {
+	if curMode4 {
+		if s, ok := c.floatConv4(e, x, from, to); ok {
+			return s
+		}
+	}
 	switch {
 	case to.k == mList && from.k == mList:
 		if to.elem.k != from.elem.k || to.elem.w != from.elem.w {
@@ -1301,6 +1339,9 @@ func (c *m3) builtin(e *ast.CallExpr, name string) string {
 		t := c.tyOf(e)
 		if t.big {
 			return "0%Z"
+		}
+		if t.k == mHPtr {
+			return c.heapAlloc(c.zeroT(*t.elem, e))
 		}
 		if t.k == mAbs {
 			c.needVar(t.abs+"_new", c.coqT(t), e)
@@ -1525,7 +1566,7 @@ func (c *m3) pkgFuncCall(e *ast.CallExpr, dir string, f *types.Func, recvExpr as
 		}
 	}
 	key := dir + ":" + recvName + "." + f.Name()
-	if abstractFuncs3[key] {
+	if abstractFuncs3[key] || (curMode4 && abstractFrom4[c.spec.pkg+">"+key]) {
 		nm := f.Pkg().Name() + "_" + f.Name()
 		if recvName != "" {
 			nm = f.Pkg().Name() + "_" + recvName + "_" + f.Name()
@@ -1568,18 +1609,29 @@ func (c *m3) userCall3(e *ast.CallExpr, s *fsig3, recvExpr ast.Expr) ([]string, 
 		c.usesFuel = true
 		parts = append(parts, "fuel")
 	}
+	if s.heap {
+		if !c.sig.heap {
+			c.fail(e, "call of `%s`, which is translated in the heap variant, from a function that is not", s.name)
+		}
+		parts = append(parts, c.vn(c.heapVar()))
+	}
 	if s.recv != nil {
 		if recvExpr == nil {
 			c.fail(e, "internal: method without receiver expression")
 		}
 		rt := c.tyOf(recvExpr)
 		switch {
+		case rt.k == mHPtr && s.recv.k == mHPtr:
+			parts = append(parts, c.ex(recvExpr))
 		case rt.k == mStruct:
 			parts = append(parts, c.ex(recvExpr))
 		case rt.k == mOpt:
 			parts = append(parts, c.derefVal(recvExpr))
 		default:
-			c.fail(recvExpr, "unsupported receiver expression `%s`", c.srcText(recvExpr.Pos(), recvExpr.End()))
+			if s.recvPtr || rt.k == mAbs || rt.k == mSum {
+				c.fail(recvExpr, "unsupported receiver expression `%s`", c.srcText(recvExpr.Pos(), recvExpr.End()))
+			}
+			parts = append(parts, c.ex(recvExpr)) // a value receiver of a named basic / slice type
 		}
 	}
 	if len(e.Args) != len(s.params) {
@@ -1598,7 +1650,7 @@ func (c *m3) userCall3(e *ast.CallExpr, s *fsig3, recvExpr ast.Expr) ([]string, 
 		}
 		return nil, nil
 	}
-	if n == 1 && !s.mutRecv && !anyTrue(s.mutPar) {
+	if n == 1 && !s.mutRecv && !anyTrue(s.mutPar) && !s.heap {
 		if s.fallible {
 			return []string{c.bind(call)}, s.results
 		}
@@ -1632,9 +1684,30 @@ func (c *m3) userCall3(e *ast.CallExpr, s *fsig3, recvExpr ast.Expr) ([]string, 
 	}
 	for i, m := range s.mutPar {
 		if m {
-			c.storeBack(e.Args[i], names[j], false)
+			term := names[j]
+			if s.params[i].k == mSum {
+				if at := c.tyOf(e.Args[i]); at.k != mSum {
+					// the argument was converted to the interface: the new contents are taken out again (the callee
+					// cannot change the dynamic type of what it was given)
+					ctor := ""
+					for _, a := range c.g.sumAlts[s.params[i].name] {
+						if types.Identical(a.gt, c.typeOf(e.Args[i])) {
+							ctor = a.ctor
+						}
+					}
+					if ctor == "" {
+						c.fail(e.Args[i], "internal: no constructor for the argument type")
+					}
+					term = fmt.Sprintf("(match %s with %s v_ => v_ | _ => %s end)", names[j], ctor, c.ex(e.Args[i]))
+				}
+			}
+			c.storeBack(e.Args[i], term, false)
 			j++
 		}
+	}
+	if s.heap {
+		c.pend = append(c.pend, fmt.Sprintf("let %s := %s in", c.vn(c.heapVar()), names[j]))
+		j++
 	}
 	return names[:len(s.results)], s.results
 }
